@@ -13,15 +13,20 @@ ID = 'C12'
 RULE = ('generated probe directories run through the real Merger (its six channel/template methods in merge order, '
         'and the whole Merger.merge for a part of the cases): corpus of the inputs behind the repaired defects, then every '
         'combination of (channel count, template count) in {1,2,3}x{1,2} for 1..3 probes (1..4 thorough) with random contents, '
-        'then a seeded random stream of 1..5 probes with 1..6 channels, 1..4 templates, permuted channel maps inside wider raw '
-        'files, zero-width / positive-minimum / fractional x coordinates, index tables of 5 signed and unsigned dtypes, '
+        'sampling rates that are non-integer (30000.207), below 1, written as int or float literals; template / channel / '
+        'probe counts around block sizes (a probe with 63/64/65/70/128/130 templates followed by probes with 1, few and many '
+        'templates, 33..130 channels, 8 and 12 probes; thorough: 31..257 templates x followers 1/3/40/70, up to 20 probes); '
+        'then a seeded random stream of 1..5 probes with 1..6 channels, 1..4 templates, 1..4 samples, permuted channel maps '
+        'inside wider raw files, zero-width / positive-minimum / fractional x coordinates, index tables of 5 signed and '
+        'unsigned dtypes, float32/float64 positions, templates and matrices mixed across probes (the dtypes of the merged '
+        'files are compared with PV.C12.Dtypes.merged_dt), '
         'table widths 1..3, optional matrices present in all / some / no probes, (n,) and (n,1) channel maps; every probe has '
         'spikes whose templates use all / all but the trailing / all but a middle / a random subset of its templates '
         '(cross-property clause 27: merged spike_templates against merged templates.npy and template_feature_ind.npy). '
         'Non-trivial = at least two probes and the merge produced the arrays; distinct = distinct abstract input.')
 EXHAUSTIVE = {'quick': True, 'thorough': True}
 CLAUSES = {
-    1: 'observed merged arrays differ from the Coq model PV.C12.Model.merge_side',
+    1: 'observed merged arrays differ from the Coq model PV.C12.Model.merge_side (or their dtypes from PV.C12.Dtypes.merged_dt)',
     21: 'C12_channel_blocks (probe label k on block k, channel map and x shifted by per-probe constants, same y, input order)',
     22: 'C12_apart (x ranges of different probes strictly ordered, i.e. disjoint)',
     23: 'C12_template_blocks (T[toff_k+t][s][coff_k+c] = T_k[t][s][c], zero outside the block)',
@@ -230,6 +235,19 @@ def _opt(x, f):
     return 'None' if x is None else '(Some %s)' % f(x)
 
 
+_IDT = {'int8': 'I8', 'int16': 'I16', 'int32': 'I32', 'int64': 'I64', 'uint8': 'U8', 'uint16': 'U16', 'uint32': 'U32',
+        'uint64': 'U64'}
+_FDT = {'float32': 'F32', 'float64': 'F64'}
+
+
+def _dt(table, name, opt):
+    """Coq term for a dtype name; opt: wrap in an option (None = no file, or a dtype outside the table)"""
+    c = table.get(name)
+    if not opt:
+        return c
+    return 'None' if c is None else '(Some %s)' % c
+
+
 def encode(case, obs):
     inp = case['inp']
     ps = []
@@ -241,20 +259,28 @@ def encode(case, obs):
             _t(float(p['rate'])), q.z(p['ncd']), q.z(p['offset'])))
     sps = ['(mksp %s %s %d)' % (q.zl(M.spike_times(p, k)), q.zl(M.spike_templates(p)), len(p['tmpl']))
            for k, p in enumerate(inp['probes'])]
-    cin = '(InMerge %d %s %s)' % (M.UNIT, q.lst(ps), q.lst(sps))
+    dts = []
+    for p in inp['probes']:
+        d = M.probe_dtypes(p)
+        dts.append('(mkpdt %s %s %s %s %s %s %s %s)' % (
+            _dt(_IDT, d[0], False), _dt(_FDT, d[1], False), _dt(_FDT, d[2], False), _dt(_IDT, d[3], False),
+            _dt(_IDT, d[4], False), _dt(_FDT, d[5], True), _dt(_FDT, d[6], True), _dt(_FDT, d[7], True)))
+    cin = '(InMerge %d %s %s %s)' % (M.UNIT, q.lst(ps), q.lst(sps), q.lst(dts))
     if obs[0] == 'crash':
         return cin, 'ObsCrash'
     o = obs[1]
 
     def oll(m):
         return q.lst(m, lambda r: q.lst(r, _otok))
-    cobs = '(ObsMerged (mkobs %s %s %s %s %s %s %s %s %s %s %s %s %s))' % (
+    od = o['dt']
+    odt = '(mkodt %s)' % ' '.join(_dt(_IDT if i in (0, 1, 4, 5) else _FDT, od[i], True) for i in range(9))
+    cobs = '(ObsMerged (mkobs %s %s %s %s %s %s %s %s %s %s %s %s %s %s))' % (
         _opt(o['par'], lambda x: '(mkpar %s %s %s)' % (_otok(x[0]), q.z(x[1]), q.z(x[2]))),
         _opt(o['map'], q.zl), _opt(o['probe'], q.zl),
         _opt(o['pos'], lambda l: q.lst(l, lambda r: '(mktxy %s %s)' % (_otok(r[0]), _otok(r[1])))),
         _opt(o['tmpl'], lambda l: q.lst(l, oll)), _opt(o['pc'], q.zll), _opt(o['tf'], q.zll),
         _opt(o['wm'], oll), _opt(o['wmi'], oll), _opt(o['sim'], oll), q.zl(o['crashed']),
-        _opt(o.get('stimes'), q.zl), _opt(o.get('st'), q.zl))
+        _opt(o.get('stimes'), q.zl), _opt(o.get('st'), q.zl), odt)
     return cin, cobs
 
 
@@ -283,6 +309,17 @@ def dist(case, obs):
         out.append('%s=%s' % (name, 'all' if n == len(ps) else 'none' if n == 0 else 'some'))
     for dt in sorted(set(p['ind_dtype'] for p in ps)):
         out.append('ind_dtype=' + dt)
+    for i, name in enumerate(('cm', 'pos', 'tmpl', 'pc', 'tf', 'wm', 'wmi', 'sim')):
+        ds = set(M.probe_dtypes(p)[i] for p in ps) - {None}
+        if len(ds) > 1:
+            out.append('mixed_dtypes_%s=True' % name)
+    if obs[0] == 'merged':
+        od = obs[1]['dt']
+        out.append('merged_dtype_map=%s' % od[0])
+        out.append('merged_dtype_templates=%s' % od[3])
+        out.append('merged_dtype_tables=%s/%s' % (od[4], od[5]))
+        out.append('merged_dtype_whitening=%s' % od[6])
+        out.append('merged_dtype_similar=%s' % od[8])
     out.append('pc_width=%d' % len(ps[0]['pc'][0]))
     out.append('permuted_map=%s' % any(p['cm'] != sorted(p['cm']) for p in ps))
     sts = [M.spike_templates(p) for p in ps]
@@ -407,7 +444,8 @@ def shrink(case):
         yield mk(probes=[dict(p, tf=[r[:1] for r in p['tf']]) for p in ps])
     for k, p in enumerate(ps):
         for key, dflt in (('cm_dtype', 'int32'), ('pos_dtype', 'float64'), ('tmpl_dtype', 'float32'), ('offset', 0),
-                          ('rate_lit', 'float')):
+                          ('rate_lit', 'float'), ('ind_dtype', 'uint32'), ('tf_dtype', p['ind_dtype']),
+                          ('wm_dtype', 'float64'), ('wmi_dtype', 'float64'), ('sim_dtype', 'float32')):
             if p.get(key, dflt) != dflt:
                 yield mk(probes=ps[:k] + [dict(p, **{key: dflt})] + ps[k + 1:])
         if p['cm'] != list(range(len(p['cm']))) or p['ncd'] != len(p['cm']):
